@@ -90,7 +90,7 @@ CHECKS.update({
         note='Trusted: decide() as transcription of dependency.yaml / Subprojects.md / Wrap manual; docs-silent cells are skipped and counted; only [wrap-file] with file:// URLs (no network, no git/hg/svn).'),
     'C14': dict(
         category='exploration', design_ref='DESIGN.md §4 C14',
-        technique='bounded exhaustive enumeration of templates (<= 3/4 fragments of a 29-fragment alphabet) x 100 data sets x 3 formats through the real do_conf_str/do_conf_file/dump_conf_header; marker-differential (no-rescan) oracle plus a reference scanner',
+        technique='bounded exhaustive enumeration of templates (<= 3/4 fragments of a 30-fragment alphabet) x 100 data sets x 3 formats through the real do_conf_str/do_conf_file/dump_conf_header; marker-differential (no-rescan) oracle plus a reference scanner',
         text='Every template built from placeholder-like fragments is substituted by the real code under every data set; the meson-format output must equal '
              'the template\'s structure (obtained with inert marker values) with the values textually inserted (so a value is never re-scanned), and must agree '
              'with a reference scanner written from Configuration.md and calibrated on the pinned config6/config7 expectations; placeholder-free text is copied '
